@@ -59,6 +59,13 @@ class PinSignature(wiring.Signature):
             "oe": Out(unsigned(1)),
         })
 
+    def __eq__(self, other):
+        """Compare signatures.
+
+        A GPIO pin signature has no parameters; any two GPIO pin signatures are equal.
+        """
+        return isinstance(other, PinSignature)
+
 
 class Peripheral(wiring.Component):
     class Mode(csr.Register, access="rw"):
